@@ -88,6 +88,28 @@ theorem ptraverse_perm (s₁ s₂ : T → List (PRel T D)) (inv : T → D → Pr
         have := List.find?_some hfa; simpa using this
       simp only [ih r.dst (r.xform x) (hstep n x r hi hmem hg)]
 
+/-- the same, with the permutation required only at visited configurations -/
+theorem ptraverse_perm_on (s₁ s₂ : T → List (PRel T D)) (inv : T → D → Prop)
+    (hp : ∀ n x, inv n x → (s₁ n).Perm (s₂ n))
+    (hm : ∀ n x, inv n x → ((s₁ n).filter (·.guard x)).length ≤ 1)
+    (hstep : ∀ n x r, inv n x → r ∈ s₁ n → r.guard x = true → inv r.dst (r.xform x)) :
+    ∀ f n x, inv n x → ptraverse s₁ f n x = ptraverse s₂ f n x := by
+  intro f
+  induction f with
+  | zero => intro n x _; rfl
+  | succ f ih =>
+    intro n x hi
+    have hf : pfirst (s₁ n) x = pfirst (s₂ n) x :=
+      find?_eq_of_perm_of_le_one _ (hp n x hi) (hm n x hi)
+    simp only [ptraverse, ← hf]
+    cases hfa : pfirst (s₁ n) x with
+    | none => rfl
+    | some r =>
+      have hmem : r ∈ s₁ n := List.mem_of_find?_eq_some hfa
+      have hg : r.guard x = true := by
+        have := List.find?_some hfa; simpa using this
+      simp only [ih r.dst (r.xform x) (hstep n x r hi hmem hg)]
+
 /-! ### basic facts about `ptraverse` -/
 
 theorem ptraverse_path_ne_nil (s : T → List (PRel T D)) (f : Nat) (n : T) (x : D) :
